@@ -171,11 +171,13 @@ def _required_cfi_directives(
     # start/end proc pair (including the start/end proc directives).
     results: List[_auxdata.CFIDirectiveType] = []
     procedure_directives: List[_auxdata.CFIDirectiveType] = []
-    for _, directives in sorted(displacement_map.items()):
+    startproc_offset = None
+    for offset, directives in sorted(displacement_map.items()):
         for directive in directives:
             append_to = procedure_directives or results
             if directive[0] == ".cfi_startproc":
                 procedure_directives.append(directive)
+                startproc_offset = offset
             elif directive[0] == ".cfi_endproc":
                 append_to.append(directive)
                 procedure_directives.clear()
@@ -184,6 +186,11 @@ def _required_cfi_directives(
                 ".cfi_restore_state",
             ):
                 append_to.append(directive)
+            elif procedure_directives and offset == startproc_offset:
+                # Directives at the same position as the .cfi_startproc are
+                # the procedure's initial rules (they do not describe the
+                # instructions being removed), so they stay with it.
+                procedure_directives.append(directive)
 
     results.extend(procedure_directives)
     return results
